@@ -23,7 +23,8 @@ func init() {
 		ShrinkColumns: true,
 		Gen:           genC08,
 		Check:         checkC08,
-		Required:      []string{"fill_made_up_shortfall", "threshold_pair_excluded", "threshold_target_excluded", "dist_limit_excluded", "ignored_target", "bin_capped_at_total", "out_of_order_arrival"},
+		Required:      []string{"fill_made_up_shortfall", "threshold_pair_excluded", "threshold_target_excluded", "dist_limit_excluded", "ignored_target", "bin_capped_at_total"},
+		Expected:      []string{"out_of_order_arrival"},
 	})
 	exhaustiveNote["C08/thorough"] = "the 137728-point grid supplies(0..3)^4 x (sizes(0..3)^4 or size-total 0..12) x no-fill is enumerated completely (trials 0..137727)"
 	exhaustiveNote["C08/quick"] = "a seeded sample of 2000 points of the 137728-point grid; the thorough tier enumerates it completely"
